@@ -4,6 +4,7 @@
 #include <cocls/suspend_point.h>
 #include <cocls/future.h>
 #include <cocls/async.h>
+#include <cocls/self.h>
 #include <memory>
 #include <optional>
 
@@ -34,10 +35,10 @@ inline probe make_probe(int id, int *counter, probe_log *log) {
 
 enum {
     SP_NEW_EMPTY = 0, SP_NEW_HANDLE, SP_ADD_HANDLE, SP_MERGE, SP_MOVE_CONSTRUCT, SP_MOVE_ASSIGN, SP_POP, SP_CLEAR, SP_DESTROY,
-    SP_AWAIT, SP_TYPED, SP_PAUSE, SP_ADD_MANY, SP_POP_ALL, SP_NOPS
+    SP_AWAIT, SP_TYPED, SP_PAUSE, SP_ADD_MANY, SP_POP_ALL, SP_AWAIT_SELF, SP_NOPS
 };
 inline const char *spo_name(int o) {
-    static const char *n[] = {"new", "new(h)", "<<h", "<<sp", "move-construct", "move-assign", "pop", "clear", "destroy", "co_await", "typed", "pause", "<<h*k", "pop-all"};
+    static const char *n[] = {"new", "new(h)", "<<h", "<<sp", "move-construct", "move-assign", "pop", "clear", "destroy", "co_await", "typed", "pause", "<<h*k", "pop-all", "co_await [k1 handles, self(), k2 handles]"};
     return n[o];
 }
 struct sp_op { int op; int a; int b; int k; };
@@ -49,6 +50,8 @@ struct sp_world {
     int counter[NH] = {};
     int expect[NH] = {};           // how often each handle must have been resumed by now (normal mode) / eventually
     bool queued[NH] = {};          // coroutine mode: flushed to the ready queue, must run at the next suspension of the driver
+    bool maybe[NH] = {};           // carried by an awaited suspend point that also held the driver's own handle: ran already or still queued
+    int self_awaits = 0, self_continues = 0;
     probe probes[NH];
     int nh = 0;
     probe_log log;
@@ -63,10 +66,10 @@ struct sp_world {
         for (int h : m) { if (coro_mode) queued[h] = true; else expect[h]++; }
         m.clear();
     }
-    void drain_queued() { for (int h = 0; h < nh; h++) if (queued[h]) { queued[h] = false; expect[h]++; } }
+    void drain_queued() { for (int h = 0; h < nh; h++) { if (queued[h]) { queued[h] = false; expect[h]++; } if (maybe[h]) { maybe[h] = false; expect[h]++; } } }
     void check(const char *after) {
         if (!err.empty()) return;
-        for (int h = 0; h < nh; h++) if (counter[h] != expect[h]) {
+        for (int h = 0; h < nh; h++) if (counter[h] != expect[h] && !(maybe[h] && counter[h] == expect[h] + 1)) {
             err = std::string("after ") + after + ": handle " + std::to_string(h) + " resumed " + std::to_string(counter[h]) + " times, expected " + std::to_string(expect[h]);
             return;
         }
@@ -207,6 +210,23 @@ inline cocls::async<void> sp_driver(sp_world &W, const std::vector<sp_op> &ops, 
             // everything queued so far (including A's handles) ran before the driver continued
             if (had) W.drain_queued();
             if (A->size() != 0) W.err = "suspend point not empty after co_await";
+        } else if (op.op == SP_AWAIT_SELF) {
+            // a suspend point made of k1 fresh handles, the driver's OWN handle (co_await self(), supported: "to avoid double insert") and
+            // k2 fresh handles. Every carried coroutine runs exactly once and the driver continues exactly once; where in that order the
+            // driver continues is not fixed (its handle sits in the middle of the list), so the carried ones are "ran or still queued".
+            int k1 = op.k % 4, k2 = (op.k / 4) % 4;
+            cocls::suspend_point<void> n;
+            std::vector<int> hs;
+            for (int j = 0; j < k1; j++) { int h = W.new_handle(); if (h < 0) break; n << std::coroutine_handle<>(W.probes[h].h); hs.push_back(h); }
+            n << (co_await cocls::self());
+            for (int j = 0; j < k2; j++) { int h = W.new_handle(); if (h < 0) break; n << std::coroutine_handle<>(W.probes[h].h); hs.push_back(h); }
+            if (n.size() != hs.size() + 1) W.err = "size() wrong after merging the own handle";
+            for (int h : hs) W.maybe[h] = true;
+            for (int h = 0; h < W.nh; h++) if (W.queued[h]) { W.queued[h] = false; W.maybe[h] = true; } // queued earlier: may run while the driver is suspended
+            W.self_awaits++;
+            co_await n;
+            W.self_continues++;
+            if (W.self_continues != W.self_awaits && W.err.empty()) W.err = "the awaiting coroutine, whose own handle was among the carried handles, continued " + std::to_string(W.self_continues) + " times for " + std::to_string(W.self_awaits) + " co_awaits (resumed twice)";
         } else if (op.op == SP_PAUSE) {
             co_await cocls::pause();
             W.drain_queued();
@@ -223,7 +243,7 @@ inline std::string run_sp_history(const std::vector<sp_op> &ops, bool coro_mode,
     if (!coro_mode) {
         for (size_t i = 0; i < ops.size() && W->err.empty(); i++) {
             const sp_op &op = ops[i];
-            if (op.op == SP_AWAIT || op.op == SP_PAUSE) continue;
+            if (op.op == SP_AWAIT || op.op == SP_PAUSE || op.op == SP_AWAIT_SELF) continue;
             trace += std::string(spo_name(op.op)) + "(" + std::to_string(op.a) + (op.op == SP_MERGE || op.op == SP_MOVE_ASSIGN || op.op == SP_MOVE_CONSTRUCT ? "," + std::to_string(op.b) : "") + ") ";
             sp_apply(*W, op);
             W->check(spo_name(op.op));
@@ -261,7 +281,7 @@ inline void suspend_point_history(const vf::opts &o, vf::report &R, uint64_t his
             else if (x < 44) { op.op = SP_ADD_MANY; op.k = sizes[r.below(12)]; }
             else if (x < 54) op.op = SP_MERGE; else if (x < 60) op.op = SP_MOVE_CONSTRUCT; else if (x < 66) op.op = SP_MOVE_ASSIGN;
             else if (x < 72) op.op = SP_POP; else if (x < 76) op.op = SP_POP_ALL; else if (x < 82) op.op = SP_CLEAR; else if (x < 88) op.op = SP_DESTROY;
-            else if (x < 93) op.op = SP_AWAIT; else if (x < 97) op.op = SP_TYPED; else op.op = SP_PAUSE;
+            else if (x < 92) op.op = SP_AWAIT; else if (x < 94) { op.op = SP_AWAIT_SELF; op.k = (int)r.below(16); } else if (x < 97) op.op = SP_TYPED; else op.op = SP_PAUSE;
             ops.push_back(op);
         }
         std::string trace;
@@ -279,7 +299,8 @@ inline void suspend_point_history(const vf::opts &o, vf::report &R, uint64_t his
 inline void suspend_point_exhaustive(const vf::opts &o, vf::report &R, int maxlen) {
     std::vector<sp_op> alphabet = {
         {SP_ADD_HANDLE, 0, 0, 0}, {SP_ADD_HANDLE, 1, 0, 0}, {SP_ADD_MANY, 0, 0, 4}, {SP_MERGE, 0, 1, 0}, {SP_MERGE, 1, 0, 0}, {SP_MOVE_ASSIGN, 0, 1, 0},
-        {SP_POP, 0, 0, 0}, {SP_POP_ALL, 0, 0, 0}, {SP_POP, 1, 0, 0}, {SP_CLEAR, 0, 0, 0}, {SP_MOVE_CONSTRUCT, 2, 0, 0}, {SP_DESTROY, 2, 0, 0}, {SP_MOVE_CONSTRUCT, 0, 1, 0}, {SP_AWAIT, 0, 0, 0}};
+        {SP_POP, 0, 0, 0}, {SP_POP_ALL, 0, 0, 0}, {SP_POP, 1, 0, 0}, {SP_CLEAR, 0, 0, 0}, {SP_MOVE_CONSTRUCT, 2, 0, 0}, {SP_DESTROY, 2, 0, 0}, {SP_MOVE_CONSTRUCT, 0, 1, 0}, {SP_AWAIT, 0, 0, 0},
+        {SP_AWAIT_SELF, 0, 0, 0}, {SP_AWAIT_SELF, 0, 0, 2}, {SP_AWAIT_SELF, 0, 0, 8}, {SP_AWAIT_SELF, 0, 0, 5}};
     uint64_t total = 0;
     const size_t A = alphabet.size();
     for (int mode = 0; mode < 2; mode++)
@@ -298,7 +319,7 @@ inline void suspend_point_exhaustive(const vf::opts &o, vf::report &R, int maxle
             }
         }
     R.extra["exhaustive_histories"] = std::to_string(total);
-    R.extra["exhaustive_space"] = vf::jstr("all sequences of length 1.." + std::to_string(maxlen) + " over a 13-op alphabet on 2(+1) suspend points, normal and coroutine mode");
+    R.extra["exhaustive_space"] = vf::jstr("all sequences of length 1.." + std::to_string(maxlen) + " over an 18-op alphabet on 2(+1) suspend points, normal and coroutine mode");
 }
 
 } // namespace scn
